@@ -492,9 +492,13 @@ func (c *Ctx) forwarderExitArm(rule string, fwd *ssa.Function) {
 		}
 		return 0
 	}
-	s := &ipSearch{p: p, flat: true, seen: map[string]bool{}, factSeen: map[string][]*factSet{},
-		target: func(in ssa.Instruction) bool { return in == ssa.Instruction(sel) },
-		avoid:  isReturn,
+	s := &ipSearch{p: p, seen: map[string]bool{}, factSeen: map[string][]*factSet{},
+		// the forwarder's own select again, or any other select on the way out (a drain loop in a helper)
+		target: func(in ssa.Instruction) bool {
+			ci, ok := in.(*ssa.Call)
+			return ok && calleeName(ci) == "reflect.Select"
+		},
+		avoid: func(in ssa.Instruction) bool { return isReturn(in) && in.Parent() == fwd },
 		edgeOK: func(from *ssa.BasicBlock, k int) bool {
 			iff, ok := from.Instrs[len(from.Instrs)-1].(*ssa.If)
 			if !ok {
